@@ -1,8 +1,53 @@
-"""Real multi-process stream of C03 (fork / spawn / forkserver).  Importable by spawned children."""
+"""Real multi-process stream of C03 (fork / spawn / forkserver / raw os.fork).  Importable by spawned children."""
 import multiprocessing
 import os
+import signal
 import sys
 import threading
+import time
+import traceback
+
+
+class _ForkProc:
+    """a child created by a raw os.fork() (no multiprocessing bookkeeping: multiprocessing.current_process() is
+    still the parent's object in the child), with the small part of the Process interface used below"""
+
+    def __init__(self, target, args):
+        self.target, self.args, self.pid, self.exitcode = target, args, None, None
+
+    def start(self):
+        pid = os.fork()
+        if pid == 0:
+            code = 0
+            try:
+                self.target(*self.args)
+            except BaseException:
+                traceback.print_exc()
+                code = 1
+            finally:
+                os._exit(code)
+        self.pid = pid
+
+    def join(self, timeout=None):
+        end = time.time() + (timeout or 0)
+        while self.exitcode is None:
+            pid, status = os.waitpid(self.pid, os.WNOHANG)
+            if pid:
+                self.exitcode = os.waitstatus_to_exitcode(status)
+                return
+            if timeout is not None and time.time() > end:
+                return
+            time.sleep(0.02)
+
+    def is_alive(self):
+        return self.exitcode is None
+
+    def terminate(self):
+        try:
+            os.kill(self.pid, signal.SIGKILL)
+            os.waitpid(self.pid, 0)
+        except OSError:
+            pass
 
 
 def _log_many(logger, tag, k):
@@ -27,11 +72,13 @@ def parent_run(method, nproc, nthr, k, path, child_remove, repo):
         sys.path.insert(0, repo)
     import loguru._logger as lg
     bad = []
-    ctx = multiprocessing.get_context(method)
+    ctx = multiprocessing.get_context("fork" if method == "osfork" else method)
     logger = lg.Logger(core=lg.Core(), exception=None, depth=0, record=False, lazy=False, colors=False, raw=False,
                        capture=True, patchers=[], extra={})
     logger.add(path, enqueue=True, context=ctx, format="{message}", catch=False)
-    procs = [ctx.Process(target=child_main, args=(logger, n + 1, nthr, k, child_remove)) for n in range(nproc)]
+    mk = (lambda target, args: _ForkProc(target, args)) if method == "osfork" else \
+        (lambda target, args: ctx.Process(target=target, args=args))
+    procs = [mk(child_main, (logger, n + 1, nthr, k, child_remove)) for n in range(nproc)]
     for p in procs:
         p.start()
     ths = [threading.Thread(target=_log_many, args=(logger, "P0-T%d" % j, k)) for j in range(nthr)]
